@@ -3,6 +3,7 @@ import re
 from sa.facts import AnalysisBroken, strip_targs
 from sa import analysis as an
 from sa import rules as K
+from rules import common as C
 
 UNITS = ['common/iovector.cpp']
 FLOOR = 25
@@ -123,10 +124,4 @@ def misc(R, prog):
                require=lambda st, ev: any(re.match(r'^G:\w+\.iovcnt <= 0=F$', k) or re.match(r'^G:\w+\.iovcnt=T$', k) or re.match(r'^G:\w+\.empty\(\)=F$', k) for k in st),
                key_fn=lambda ev: P + '.K6:iov_iterator:element0-only-if-non-empty',
                describe=lambda ev: 'iov[0] is read only from a non-empty view', min_sites=1, what='v.iov[0]')
-    f = prog.find('iovector::extract_front_continuous')
-    G = K.build_f(R, prog, f)
-    res = an.run(G, [an.GuardTracker(lambda k: True)])
-    K.check_at(R, P + '.K6', G, res, lambda ev: ev.kind == 'call' and (ev.callee() or '').endswith('iovector::extract_front') and len(ev.e.get('args', [])) == 2,
-               require=lambda st, ev: any(re.match(r'^G:\w+\.sum\(\) < bytes=F$', k) for k in st) and 'G:buf=T' in st,
-               key_fn=lambda ev: P + '.K6:iovector::extract_front_continuous:copy-only-if-enough-and-allocated',
-               describe=lambda ev: 'the gather copy runs only if the vector holds >= bytes and the buffer was allocated', min_sites=1, what='extract_front(bytes, buf)')
+    C.gather_extract(R, prog, P)
